@@ -40,9 +40,24 @@ def reference_width(G, node_mode, ignored, starts, ends):
     return dilworth(G, required, starts, ends)
 
 
+def fan_case(cls, p, q):
+    """Repetition stress: s->h1->t, h1->h2, h2->a_i, every a_i->b_j, b_j->h1.  One walk covers everything, but it has to
+    cross (h1,h2) p*q times - far more often than there are nodes.  Any cap on repetitions shows here first."""
+    A = [f"a{i}" for i in range(p)]
+    B = [f"b{j}" for j in range(q)]
+    edges = [("s", "h1"), ("h1", "t"), ("h1", "h2")] + [("h2", a) for a in A] + [(a, b) for a in A for b in B] + [(b, "h1") for b in B]
+    nodes = ["s", "h1", "h2"] + A + B + ["t"]
+    kw = {} if cls == "MinPathCoverCycles" else {"k": 1}
+    return {"cls": cls, "graph": {"nodes": [[v, {}] for v in nodes], "edges": [[u, v, {}] for u, v in edges]}, "flow_attr": "flow", "kw": kw,
+            "meta": {"planted": [], "k0": 1, "noise_total": 0, "cyclic": True, "node_mode": False, "missing_attr": [], "fan": [p, q]}}
+
+
 @st.composite
 def strategy_(draw, tier):
     big = tier == "thorough"
+    if draw(st.integers(0, 59)) == 0:
+        p_, q_ = draw(st.sampled_from([(4, 4), (3, 5), (5, 3), (2, 3), (3, 3)]))
+        return fan_case(draw(st.sampled_from(["MinPathCoverCycles", "kPathCoverCycles"])), p_, q_)
     case = draw(gen.model_cases(classes=COVERS, max_nodes=7 if big else 5, p_opts=0, p_constr=3, p_ignore=3, p_se=4, p_node=3, p_len=2))
     if case["cls"] not in MIN_CLASSES:
         G = graph_from_json(case["graph"])
@@ -111,6 +126,8 @@ def run_case(case, tier="quick"):
         labels.add("constraints")
     if spec.by_length:
         labels.add("length_coverage")
+    if (case.get("meta") or {}).get("fan"):
+        labels.add("repetition_stress")
     w = reference_width(G, node_mode, ignored, starts, ends)
     if w is None:
         return invalid_config("too many poset items for the brute-force antichain")
